@@ -16,8 +16,10 @@ type Sys struct {
 	// OnStep, if set, runs after every elementary operation (also inside a macro) with the
 	// implementation's verdict; first is true for the first step of the current Apply call.
 	OnStep func(s *Sys, o Op, err error, first bool)
-	// Steps is the flattened list of elementary operations applied so far (macros expanded).
-	Steps []Op
+	// Steps is the flattened list of elementary operations applied so far (macros expanded);
+	// LastSteps is how many of them belong to the last Apply call.
+	Steps     []Op
+	LastSteps int
 }
 
 // NewSys opens a fresh world with the reference model at its initial state.
@@ -50,6 +52,7 @@ func (s *Sys) Apply(i int) (string, bool) {
 		}
 		obs := ""
 		var last error
+		s.LastSteps = len(Macros[o.Obj])
 		for j, sub := range Macros[o.Obj] {
 			last = s.step(sub, j == 0)
 			obs += ErrClass(last)[:2]
@@ -58,6 +61,7 @@ func (s *Sys) Apply(i int) (string, bool) {
 		s.Errs = append(s.Errs, last)
 		return obs, true
 	}
+	s.LastSteps = 1
 	err := s.step(o, true)
 	s.Hist = append(s.Hist, i)
 	s.Errs = append(s.Errs, err)
